@@ -7,9 +7,9 @@ CONSTANTS
   MaxRuns = 1000000  MaxFaults = 100  MaxDev = 0  MaxSignals = 100
   ConfigClasses = {"ok"}  AllowEmpty = FALSE
   RecordHist = FALSE
-  AllowKill = TRUE  FaultOnLock = TRUE
+  AllowKill = TRUE  FaultOnLock = TRUE  FaultOnWalk = TRUE
   V_FlushBeforeRename = TRUE  V_FailureConsulted = TRUE  V_LockOnAbort = TRUE
-  V_LockFromCounter = TRUE  V_Handled = {"TERM", "INT"}  V_InterruptedCheckFails = TRUE
+  V_LockFromCounter = TRUE  V_Handled = {"TERM", "INT"}  V_InterruptedCheckFails = TRUE  V_StopEndsDiscovery = TRUE
   V_OverflowFails = TRUE  EnvTmp = "usable"
 SPECIFICATION TSpec
 CHECK_DEADLOCK FALSE
